@@ -313,6 +313,12 @@ def wl_shift(ctx, idx, rng):
     s = make_shift(rng, N, sshape, kind if whole is None else "int", shape_kind)
     if np.ndim(s) >= 2 and rng.random() < 0.35:
         s = np.asfortranarray(s)            # a delay table passed transposed: same values, column-major memory
+    if kind == "int" and whole is None and rng.random() < 0.4:
+        # whole-sample delays held in an integer dtype (a table of sample offsets): unsigned when all are >= 0
+        sa = np.asarray(s)
+        it = gen.pick(rng, [np.uint8, np.uint16, np.uint32]) if np.all(sa >= 0) else gen.pick(rng, [np.int8, np.int16, np.int64])
+        if np.all(np.abs(sa) <= np.iinfo(it).max):
+            s = sa.astype(it) if sa.ndim else it(int(sa))
     sq = s
     if whole is not None:
         T = np.round(np.asarray(s, dtype=float) / R) if abs(np.max(np.abs(s))) >= R else np.sign(s)
